@@ -271,6 +271,36 @@ inductive Resp
 def noData (d : DMsg) : Bool :=
   d.an.isEmpty && d.ns.isEmpty && d.ar.all (fun r => r.ty = 41 || r.ty = 250)
 
+/-- the first OPT record of the additional section (the one the scan reaches first), if the records
+    before it can be delimited: position of the record -/
+def firstOpt (msg : Bytes) : Nat → Nat → Option Delim
+  | 0, _ => none
+  | n+1, pos =>
+    match specDelimit msg pos with
+    | none => none
+    | some d => if d.ty = 41 then some d else firstOpt msg n d.next
+
+/-- "an OPT whose owner is not the root": the OPT the scan reaches decodes, has well-formed options,
+    and its owner is not the root (C09 asks for FORMERR here) -/
+def optOwnerNotRoot (msg : Bytes) : Bool :=
+  if msg.size < 12 then false else
+  let qd := hdr msg 4
+  let p1 : Option Nat := if qd = 0 then some 12 else match specQuestionAt msg 12 with
+    | some (_, _, _, nx) => some nx
+    | none => none
+  match p1 with
+  | none => false
+  | some p1 =>
+    match scanPlain msg (hdr msg 6 + hdr msg 8) p1 with
+    | none => false
+    | some p2 =>
+      match firstOpt msg (hdr msg 10) p2 with
+      | none => false
+      | some d =>
+        match specDecodeName msg d.pos with
+        | some (owner, _, _) => owner ≠ [0] && optRdataOk msg (d.rdlen + 1) (d.ownerEnd + 10) d.next
+        | none => false
+
 /-- audit one response; returns tags `Cxx:reason` of the properties it violates -/
 def auditOne (cat : List ZoneCfg) (serverSize : Nat) (req : Bytes) (udp : Bool) (r : Resp) : List String :=
   let sc := specScan cat serverSize req
@@ -333,6 +363,7 @@ def auditOne (cat : List ZoneCfg) (serverSize : Nat) (req : Bytes) (udp : Bool) 
       let cv := match sc.verdict with
         | .formErr =>
           (if extRcode ≠ 1 then [s!"C08:rcode-{extRcode}-{tr}"] else []) ++
+          (if extRcode ≠ 1 ∧ sc.edns ∧ optOwnerNotRoot req then [s!"C09:owner-rcode-{extRcode}-{tr}"] else []) ++
           (if !noData d then [s!"C08:data-{tr}"] else [])
         | .badVers =>
           (if extRcode ≠ 16 then [s!"C09:badvers-rcode-{extRcode}-{tr}"] else []) ++
